@@ -38,7 +38,7 @@ CLAIMS = {
             TB + "A trap inside the cross-memory copy itself (guest passes an out-of-bounds source) is outside the stated quantifier and not modelled.",
             "Lean 4 invariant + refinement to 'last N bytes' by induction over histories + differential correspondence", "§4 C05"),
     "C06": ("Theorems over the regenerated constants: documented 32-bit layout, 64-bit layout, saturation at exactly 2^14-1 on both widths, totality of unboxing (never a crash), tag table; "
-            "the constants AND the bodies of NanBox::encode / NanBox::number are re-translated from core/src/read.rs on every run (C06_model_is_the_source_text proves the model functions equal to the regenerated ones); box/unbox compared with the real crate on all boundary lengths x pointers, decision-relevant prefix/tag patterns, random doubles and raw patterns.",
+            "the constants AND the bodies of NanBox::encode / NanBox::number / NanBox::try_decode (with NanBox::tag inlined and both pointer-width variants of its cfg pair) are re-translated from core/src/read.rs on every run (C06_model_is_the_source_text proves the model functions equal to the regenerated ones, for every bit pattern); box/unbox compared with the real crate on all boundary lengths x pointers, decision-relevant prefix/tag patterns, random doubles and raw patterns natively, and at 32-bit pointer width under miri/i686 on a fixed corpus of 281 box/unbox lines (quick and thorough).",
             TB, "Lean 4 theorems over translated constants (decide +kernel) + differential correspondence", "§4 C06"),
     "C07": ("Theorems over a model of TrampolineCodegen::new/apply (Model/Tramp.lean: stepOne per IMPORTS entry, every occurrence of an import handled) driven by the tables regenerated from trampoline/src/lib.rs: no own memory => returned unchanged; more than one own memory, an unknown API-namespace name, another API version => rejected; "
             "C07_reject_bad_signature (a string-carrying function import whose signature is not the expected one is rejected wherever it stands, whatever else is imported, also as a second import of the same name); C07_idempotent (the import section the tool produces is accepted and left exactly as it is by a second application — uses table facts discharged by the kernel on the regenerated tables: no new name is an original name, helper names are known and never original names); "
